@@ -123,6 +123,30 @@ func c02ProbesAfterTruncation(w *core.WorkerCtx) {
 	w.R.Count("c02_probe_scenarios_after_truncation", 1)
 }
 
+// c02SyncAfter: conservation also holds on a node that obtained the ledger by syncing. After a multi-node scenario
+// (its ledger has forks and merges) a fresh node syncs from node 0, merges the tips, and is held to the conservation
+// oracle (its own reported balances against the reference over all vertices) and to the overspend probes.
+func c02SyncAfter(d *ledger.Driver) {
+	world := d.W
+	src := world.Nodes[0]
+	if s, err := ledger.TakeSnap(src.Book); err != nil || len(s.Stored) > 0 || src.BackgroundMayAct(s) {
+		return
+	}
+	n, err := world.AddSyncedNode("SY", src)
+	if err != nil || n == nil {
+		return
+	}
+	for i := 0; i < 3; i++ {
+		t := world.NewTrx(world.Users[0], world.Users[1].Addr, spice.Melange{}, []byte("after sync"))
+		world.Propose(n, &t, "on the synced node")
+	}
+	world.CheckConservation(n)
+	world.OverspendProbes(n, nil)
+	world.NontrivFor("C02", "synced-node-conservation")
+	world.Res.Count("c02_synced_nodes_checked", 1)
+	world.CloseNode(n)
+}
+
 func c02Worker(w *core.WorkerCtx) {
 	if w.Batch == 4 {
 		c02ProbesAfterTruncation(w)
@@ -166,7 +190,7 @@ func c02Worker(w *core.WorkerCtx) {
 		p.PTrust = 0
 		p.POverdraft = 0.2
 		p.Name = "conflict/" + p.Name
-	}, nil, func(d *ledger.Driver) {
+	}, c02SyncAfter, func(d *ledger.Driver) {
 		d.QuietEvery = 10
 		d.OnQuiet = func(d *ledger.Driver) {
 			for _, nd := range d.W.Nodes {
